@@ -198,7 +198,8 @@ class Driver:
               "mrp": Protocol.MRP, "raop": Protocol.RAOP}
         c = AppleTV(IPv4Address("10.0.0.1"), "dev")
         for s in cfg:
-            c.add_service(ManualService(s["id"], pm[s["p"]], 7000, {}, credentials=s["cr"], password=s["pw"]))
+            c.add_service(ManualService(s["id"], pm[s["p"]], 7000, {}, credentials=s["cr"], password=s["pw"],
+                                        enabled=s.get("en", True)))
         return c
 
     def sub(self, obj, sec):
@@ -412,6 +413,19 @@ class Hist:
                 got = self.drv.run(self.st.get_settings(probe))
                 if got is not obj:
                     self.err("C14:lookup:unstable-identity", "a configuration sharing identifier %r got a different settings object" % i)
+        # a record that was just created belongs to the device the configuration describes: no stored
+        # record shared any identifier with the configuration (else it would have been returned), so a
+        # configuration carrying any ONE of its identifiers - whichever service, enabled or not, it came
+        # from - must get this very object and create nothing
+        if not was_known:
+            for i in sorted(set(ids)):
+                for p, en in (("raop", True), ("dmap", False)):
+                    n = len(self.st.settings)
+                    probe = self.drv.config([{"p": p, "id": i, "cr": None, "pw": None, "en": en}])
+                    got = self.drv.run(self.st.get_settings(probe))
+                    if got is not obj or len(self.st.settings) != n:
+                        self.err("C14:lookup:created-record-not-found-by-own-identifier",
+                                 "settings created for a configuration are not returned for a configuration sharing its identifier %r" % i)
 
     def judge_apply(self, cfg, conf, obj):
         cont = dict(self.drv.content(obj))
@@ -475,7 +489,7 @@ class Hist:
                     if k == "scan":
                         conf.apply(obj)
                         obs = ("applied", self.handle_of(obj),
-                               [{"p": s["p"], "id": svc.identifier, "cr": svc.credentials, "pw": svc.password}
+                               [{"p": s["p"], "id": svc.identifier, "cr": svc.credentials, "pw": svc.password, "en": bool(svc.enabled)}
                                 for s, svc in zip(o["cfg"], conf.services)])
                         self.judge_apply(o["cfg"], conf, obj)
                     else:
@@ -569,7 +583,7 @@ def rand_cfg(rng, sections, allow_extra_pw=False):
         pw = None
         if (p in has_pw or allow_extra_pw) and rng.random() < 0.3:
             pw = rng.choice(TEXT)
-        out.append({"p": p, "id": i, "cr": cr, "pw": pw})
+        out.append({"p": p, "id": i, "cr": cr, "pw": pw, "en": rng.random() >= 0.2})
     return out
 
 
@@ -663,8 +677,8 @@ class Terms:
         return "None" if v is None else "(Some %s)" % self.s(v)
 
     def cfg(self, c):
-        return "[" + "; ".join("{| sproto := %s; sid := %s; screds := %s; spw := %s |}" % (
-            CPROTO[s["p"]], self.ostr(s["id"]), self.ostr(s["cr"]), self.ostr(s["pw"])) for s in c) + "]"
+        return "[" + "; ".join("{| sproto := %s; sid := %s; screds := %s; spw := %s; senabled := %s |}" % (
+            CPROTO[s["p"]], self.ostr(s["id"]), self.ostr(s["cr"]), self.ostr(s["pw"]), common.cbool(s.get("en", True))) for s in c) + "]"
 
     def rec(self, r):
         return "[" + "; ".join("(%s, [%s])" % (cname(s), "; ".join("(%s, %s)" % (cname(k), self.val(v)) for k, v in kv)) for s, kv in r) + "]"
@@ -759,7 +773,7 @@ def shrink(drv, kind, init, ops, key):
 
 def small_alphabet():
     a = {"p": "mrp", "id": "A", "cr": "c1", "pw": None}
-    b = {"p": "airplay", "id": "B", "cr": None, "pw": "pw"}
+    b = {"p": "airplay", "id": "B", "cr": None, "pw": "pw", "en": False}
     b2 = {"p": "airplay", "id": "B", "cr": "c2", "pw": None}
     return [
         {"op": "get", "cfg": [a]}, {"op": "get", "cfg": [a, b]}, {"op": "scan", "cfg": [b2]},
